@@ -406,4 +406,121 @@ theorem ps_copyB (e : Env) (strs msg pb dec : Bytes) (close : Nat) (tape : Array
     apply Array.ext'; simp
   simp [hs, hb, hS, Env.get_set, extCall, hD, assignTargets, hc, backEnv, ofInt_nat, asWords, ha, size_word, -Env.set]
 
+theorem copyBr_split : copyBr = (copyBr.take 2 ++ [reallocIte]) ++ copyTail := rfl
+
+/-- `needCopy` true after validation: the whole copy branch and the end of the function -/
+theorem ps_copy (e : Env) (strs msg pb dec : Bytes) (close : Nat) (sz : UInt64) (cap : Int) (tape : Array UInt64) (f : Nat)
+    (hi : PJInit strs msg ⟨e, tape⟩) (hnc : e.get "needCopy" = some (.bool true)) (hb : e.get "buf" = some (.bytes pb))
+    (hcap : e.get "cap(strs)" = some (.int cap)) (hsz : e.get "size" = some (.u64 sz))
+    (hD : decodeString pb 1 pb.size = some (dec, close)) :
+    ∃ e', exec goFuns (f + 1) (psTail.drop 2) ⟨e, tape⟩ =
+        .ret ⟨e', (tape.push (mkWord 34 (wSTRINGBUFBIT + UInt64.ofNat strs.size))).push (UInt64.ofNat dec.size)⟩ [.bool true] ∧
+      e'.get "pj.lim" = some (.int ((tape.size + 1 : Nat) + 1)) ∧ e'.get "Strings.B" = some (.bytes (strs ++ dec)) ∧
+      e'.get "Message" = some (.bytes msg) := by
+  obtain ⟨hl, hS, hM⟩ := hi
+  simp only at hl hS hM
+  have hstep : exec goFuns (f + 1) (psTail.drop 2) ⟨e, tape⟩ =
+      exec goFuns (f + 1) (copyBr ++ [.tapeAppend "pj" [(.v "size")], .ret [(.bool true)]]) ⟨e, tape⟩ := by
+    rw [psTail_drop, exec_append, exec, exec1]
+    simp only [evalE, hnc, Bool.not_true]
+    generalize exec goFuns (f + 1) copyBr _ = out
+    cases out <;> rfl
+  have hA : exec goFuns (f + 1) (copyBr.take 2) ⟨e, tape⟩ =
+      .normal ⟨(e.set "strs" (.bytes strs)).set "requiredLen" (.u64 (UInt64.ofNat strs.size + sz + 32)), tape⟩ := by
+    simp [copyBr_eq, hS, hsz, Env.get_set, ofInt_nat, -Env.set]
+  obtain ⟨e2, hR, r1, r2, r3⟩ := realloc_exec ((e.set "strs" (.bytes strs)).set "requiredLen" (.u64 (UInt64.ofNat strs.size + sz + 32)))
+    strs (UInt64.ofNat strs.size + sz + 32) sz cap tape (f + 1) (by simp [Env.get_set]) (by simp [Env.get_set, hS])
+    (by simp [Env.get_set]) (by simp [Env.get_set, hcap]) (by simp [Env.get_set, hsz])
+  have hB := ps_copyB e2 strs msg pb dec close tape f
+    (by rw [r3 _ (by decide) (by decide) (by decide)]; simp [Env.get_set, hl]) r2
+    (by rw [r3 _ (by decide) (by decide) (by decide)]; simp [Env.get_set, hM]) r1
+    (by rw [r3 _ (by decide) (by decide) (by decide)]; simp [Env.get_set, hb]) hD
+  have hfin : exec goFuns (f + 1) (psTail.drop 2) ⟨e, tape⟩ =
+      exec goFuns (f + 1) (copyTail ++ [.tapeAppend "pj" [(.v "size")], .ret [(.bool true)]]) ⟨e2, tape⟩ := by
+    rw [hstep, copyBr_split, List.append_assoc, exec_append, exec_append, hA]
+    simp only [exec, hR]
+  rw [hfin, hB]
+  refine ⟨_, rfl, ?_, ?_, ?_⟩
+  · simp [Env.get_set]
+  · simp [backEnv, Env.get_set]
+  · simp [backEnv, Env.get_set]
+
+/-- what `parseString` leaves in a store `e` for the machine state `m'`: the view `pj`, the string buffer, the message -/
+def PSPost (e : Env) (m' : M) (buf : Bytes) : Prop :=
+  e.get "pj.lim" = some (.int m'.tape.size) ∧ e.get "Strings.B" = some (.bytes m'.strings) ∧
+    e.get "Message" = some (.bytes buf)
+
+theorem psTail_split : psTail = psTail.take 2 ++ psTail.drop 2 := rfl
+
+theorem parseString_sim (m : M) (cfg : Cfg) (buf : Bytes) (idx max : UInt64) (cap : Int) (fuel : Nat)
+    (hidx : idx.toNat ≤ buf.size) (h63 : idx.toNat < 2^63) :
+    match m.parseString cfg buf idx.toNat max.toNat with
+    | some m' => ∃ e', runFun goFuns goparseString (fuel + 1) ⟨psEnv m buf idx max cfg.copyStrings cap, m.tape⟩ =
+        .ret ⟨e', m'.tape⟩ [.bool true] ∧ PSPost e' m' buf
+    | none => ∃ e', runFun goFuns goparseString (fuel + 1) ⟨psEnv m buf idx max cfg.copyStrings cap, m.tape⟩ =
+        .ret ⟨e', m.tape⟩ [.bool false] ∧ PSPost e' m buf := by
+  obtain ⟨n, e1, h1, F⟩ := ps_head m buf idx max cfg.copyStrings cap (fuel + 1) hidx h63
+  generalize hpb : buf.extract idx.toNat buf.size ++ Array.replicate n 0 = pb at F
+  have hdec : decodeString buf (idx.toNat + 1) max.toNat = shiftR idx.toNat (decodeString pb 1 max.toNat) := by
+    rw [decodeString_suffix, ← hpb, decodeString_pad]
+  have hv := ps_validate e1 m.tape.size m.strings buf pb idx max cfg.copyStrings cap m.tape (fuel + 1) F
+  have hrun : runFun goFuns goparseString (fuel + 1) ⟨psEnv m buf idx max cfg.copyStrings cap, m.tape⟩ =
+      match (match exec goFuns (fuel + 1) (psTail.take 2) ⟨e1, m.tape⟩ with
+        | .normal s' => exec goFuns (fuel + 1) (psTail.drop 2) s'
+        | o => o) with
+      | .normal s' => .ret s' []
+      | .brk _ | .cont _ => .stuck "break outside loop"
+      | o => o := by
+    unfold runFun
+    rw [ps_body, exec_append, h1]
+    simp only []
+    rw [psTail_split, exec_append]
+    rfl
+  rw [hv] at hrun
+  unfold M.parseString
+  rw [hdec]
+  cases hD : decodeString pb 1 max.toNat with
+  | none =>
+    rw [hD] at hrun
+    simp only [shiftR, Option.map]
+    refine ⟨_, hrun, ?_, ?_, ?_⟩
+    · simp [Env.get_set, F.lim]
+    · simp [Env.get_set, F.strs]
+    · simp [Env.get_set, F.msg]
+  | some r =>
+    obtain ⟨dec, close⟩ := r
+    rw [hD] at hrun
+    simp only [shiftR, Option.map] at hrun ⊢
+    have hsl : close + idx.toNat - (idx.toNat + 1) = close - 1 := by omega
+    rw [hsl]
+    have hi : PJInit m.strings buf ⟨((e1.set "#ok" (.bool true)).set "size" (.u64 (UInt64.ofNat dec.size))).set "needCopy"
+        (.bool (cfg.copyStrings || close - 1 != dec.size)), m.tape⟩ := by
+      constructor <;> simp [Env.get_set, F.lim, F.strs, F.msg]
+    cases hnc : (cfg.copyStrings || close - 1 != dec.size) with
+    | false =>
+      rw [hnc] at hrun hi
+      have hcl : close - 1 = dec.size := by
+        have := (Bool.or_eq_false_iff.mp hnc).2
+        simpa using this
+      have hex := ps_nocopy _ m.strings buf idx (UInt64.ofNat dec.size) m.tape fuel hi
+        (by simp [Env.get_set, F.idx]) (by simp [Env.get_set]) (by simp [Env.get_set])
+      rw [hex] at hrun
+      have hidx1 : UInt64.ofNat (idx.toNat + 1) = idx + 1 := by
+        apply UInt64.toNat_inj.mp
+        simp [UInt64.toNat_add]
+      simp only [Bool.not_false, if_true, M.writeTape, hcl, hidx1, tagString]
+      refine ⟨_, hrun, ?_, ?_, ?_⟩
+      · simp [Env.get_set]
+      · simp [backEnv, Env.get_set]
+      · simp [backEnv, Env.get_set]
+    | true =>
+      rw [hnc] at hrun hi
+      have hD' := decodeString_lim_size pb max.toNat dec close hD
+      obtain ⟨e', hex, p1, p2, p3⟩ := ps_copy _ m.strings buf pb dec close (UInt64.ofNat dec.size) cap m.tape fuel hi
+        (by simp [Env.get_set]) (by simp [Env.get_set, F.buf]) (by simp [Env.get_set, F.cap]) (by simp [Env.get_set]) hD'
+      rw [hex] at hrun
+      simp only [Bool.not_true, Bool.false_eq_true, if_false, M.writeTape, tagString]
+      refine ⟨e', hrun, ?_, p2, p3⟩
+      simp [p1]
+
 end SJ.GoStage2
